@@ -118,6 +118,10 @@ def grad_for(cls, shape, rs, scale=1.0):
     return (g * np.float32(1e30)).astype(np.float32)
   if cls == "tiny":
     return (g * np.float32(1e-30)).astype(np.float32)
+  if cls == "big":
+    return (g * np.float32(1e12)).astype(np.float32)
+  if cls == "small":
+    return (g * np.float32(1e-12)).astype(np.float32)
   raise ValueError(cls)
 
 
@@ -170,6 +174,16 @@ class Runner:
     else:
       self.state = self.opt.init(self.params)
       self._upd = jax.jit(self.opt.update)
+
+  def reset(self):
+    """Fresh optimizer state, same compiled update."""
+    if self.mode in ("pmap", "pmapq"):
+      self.state = jax.pmap(self.opt.init, axis_name="batch", devices=self._devs)(self._rp)
+    elif self.mode == "shard":
+      with self.mesh:
+        self.state = self.fns.init_fn(self.params)
+    else:
+      self.state = self.opt.init(self.params)
 
   def step(self, grads):
     if self.mode in ("pmap", "pmapq"):
@@ -280,11 +294,15 @@ def sha(b):
   return hashlib.sha256(b).hexdigest()[:16]
 
 
-def trace_run(o, shapes, classes, seed, keep=False):
+def trace_run(o, shapes, classes, seed, keep=False, runner=None):
   """Run and return per-statistic DSControl traces (events with change bits).
 
   If keep, also returns float copies of statistics / roots / updates per step."""
-  r = Runner(o, shapes, seed)
+  if runner is None:
+    r = Runner(o, shapes, seed)
+  else:
+    r = runner
+    r.reset()
   n = len(shapes)
   grads = make_grads(shapes, classes, seed)
   prev = project(r.host_state(), r.mode, n)
